@@ -9,7 +9,9 @@
          O: dflt ctor ctorr copy move assign massign swap fswap selfswap make maker get getc getr getcr sb mft mftr fwd tie
             conv convr cassign cmassign (pair of int only)
    tuple op=apply q=Q c=C a=[..]   (q: tuple category, c: callee category, default 0)   -> r=N log=L
-   tcat  t=K q=0|2 ts=[n1,..] v=[flattened values]              -> r=[..] a=[..] cp=N
+   tuple op=apply f=memfn q=Q a=[x] | f=memdata q=Q v=N   (pointer to member; the object is the first tuple element)
+         further O: tieassign tiemassign gett gettr convp convpr (tuple from pair); conv.. for tuple: int elements widen/narrow
+   tcat  k=[kinds of the flattened elements] q=Q ts=[n1,..] v=[flattened values]   -> r=[..] a=[..] cp=N | n/a
    invoke f=fn|fptr|lam|fob|memfn|memdata c=Q o=obj|refw|ptr|der|dptr x=[..] xc=[..] v=N   -> r=N log=L
    fref   f=fn|fptr|lam|fob c=0|1 act=call|copy x=[..] xc=[..]   -> r=N log=L cp=N
    ifn2   x=[a,b,c] xc=[q]                                       -> r=N log=L cp=N
@@ -19,10 +21,14 @@
           br[i]=1: bound argument i is handed over as ref(object); act: the wrapper called is the original,
           a copy of it, or one move-constructed from it
    nf     q=Q p=0|1 [act=call|copy|move] x=[..] xc=[..]          -> r=B log=L
+   nf     f=memfn c=C q=Q p=P x=[v] | f=memdata c=C q=Q v=N      (not_fn around a pointer to member, object category c)
+   nfc    f=fn p=P x=[a,b] | f=memfn c=C p=P x=[v] | f=memdata c=C v=N   (the stateless not_fn<ConstFn>())
+   bf     f=memfn|memdata q=Q bl=0 b=[] o=obj|ptr|cptr|refw x=[..] [v=N]   (bind_front(pointer to member, object))
+   rw/fref act=reref (ref(reference_wrapper)) | rebind (assignment); fref ne=1: function_ref<R(Args...) noexcept>
    log entry: tid/self/args; per argument a letter and the value: v by-value parameter, l c r k category seen by a
           forwarding parameter, L C R K the same for an argument that arrives as a reference_wrapper
    new                                                           -> four empty inplace_function objects (3 = small capacity)
-   ifn op=ctor_empty|ctor_null|ctor_fn|ctor_copy|ctor_move|assign|massign|assign_fn|assign_null|swap|fswap|call|bool|eqnull
+   ifn op=ctor_empty|ctor_null|ctor_fn|ctor_copy|ctor_move|assign|massign|assign_fn|assign_null|swap|fswap|call|bool|eqnull|nenull
        i=I [j=J] [ty=T id=N] [x=X]                               -> <res> e=[..] live=N log=L                      -/
 import Tetl.Proto
 import Tetl.C20.Model
@@ -74,15 +80,31 @@ def valueKind : EK → Bool
 
 /-- applicability of a value operation to the element kinds (the harness derives the same answer from the
     std type's traits and checks at compile time that the etl type agrees) -/
-def applicable (op : String) (ks : List EK) : Bool :=
+def distinctKinds : List EK → Bool
+  | [] => true
+  | k :: t => !t.contains k && distinctKinds t
+
+def applicable (isPair : Bool) (op : String) (ks : List EK) : Bool :=
+  let hasInt := ks.any (fun k => k == .int || k == .cst)      -- an element a converting constructor widens
+  let hasPlain := ks.any (· == .int)                          -- an element a converting assignment narrows
   match op with
   | "ctor" | "copy" | "getcr" | "mft" => ks.all (·.copyable)
   | "assign" => ks.all (fun k => k.copyable && k.assignable)
   | "massign" | "swap" | "fswap" | "selfswap" => ks.all (·.assignable)
-  | "make" => ks.all valueKind
-  | "maker" => ks.all (fun k => valueKind k || k == .mo)
+  | "make" | "tieassign" => ks.all valueKind
+  | "maker" | "tiemassign" => ks.all (fun k => valueKind k || k == .mo)
   | "fwd" | "tie" => ks.all (fun k => valueKind k || k == .mo)
-  | "conv" | "convr" | "cassign" | "cmassign" => ks.all (· == .int)
+  -- pair: the harness converts pair<int,int> only; tuple: int elements widen / narrow, the other kinds keep their type
+  | "conv" => if isPair then ks.all (· == .int) else hasInt && ks.all (·.copyable)
+  | "convr" => if isPair then ks.all (· == .int) else hasInt
+  | "cassign" => if isPair then ks.all (· == .int) else hasPlain && ks.all (fun k => k.copyable && k.assignable)
+  | "cmassign" => if isPair then ks.all (· == .int) else hasPlain && ks.all (·.assignable)
+  | "convp" => !isPair && ks.length == 2 && ks.all (·.copyable)
+  | "convpr" => !isPair && ks.length == 2
+  -- get<T>: every element type once (kinds name distinct types); through an rvalue: no reference element (libstdc++ 12 cannot
+  -- compile get<T&>(pair&&), so the harness leaves reference kinds out)
+  | "gett" => distinctKinds ks
+  | "gettr" => distinctKinds ks && ks.all (· != .ref)
   | "dflt" => ks.all (fun k => k == .int || k == .cst)
   | _ => true
 
@@ -96,11 +118,11 @@ def valueOp (op : String) (ks : List EK) (a b : List Int) : Option (Except Err R
     (let m := moveAll e1; .ok ⟨some m.1, m.2.1, b, m.2.2⟩, let s := Spec.move e1; ⟨some s.1, s.2.1, b, s.2.2⟩)
   match op with
   | "dflt" => some (.ok ⟨some (defaultAll ks), a, b, 0⟩, ⟨some (Spec.dflt ks), a, b, 0⟩)
-  | "ctor" | "copy" | "make" | "getcr" | "mft" | "conv" => some copyR
-  | "ctorr" | "move" | "maker" | "getr" | "mftr" | "convr" => some moveR
-  | "assign" | "cassign" =>
+  | "ctor" | "copy" | "make" | "getcr" | "mft" | "conv" | "convp" => some copyR
+  | "ctorr" | "move" | "maker" | "getr" | "mftr" | "convr" | "convpr" | "gettr" => some moveR
+  | "assign" | "cassign" | "tieassign" =>
     some (let m := assignAll e2; .ok ⟨none, m.1, b, m.2⟩, let s := Spec.assign e2; ⟨none, s.1, b, s.2⟩)
-  | "massign" | "cmassign" =>
+  | "massign" | "cmassign" | "tiemassign" =>
     some (let m := moveAssignAll e2; .ok ⟨none, m.1, m.2.1, m.2.2⟩, let s := Spec.moveAssign e2; ⟨none, s.1, s.2.1, s.2.2⟩)
   | "swap" | "fswap" =>
     some (let m := swapAll e2; .ok ⟨none, m.1, m.2.1, m.2.2⟩, let s := Spec.swap e2; ⟨none, s.1, s.2.1, s.2.2⟩)
@@ -108,7 +130,7 @@ def valueOp (op : String) (ks : List EK) (a b : List Int) : Option (Except Err R
     -- `a.swap(a)`: both operands are the same object
     let e := zip3 ks a a
     some (let m := swapAll e; .ok ⟨none, m.1, b, m.2.2⟩, let s := Spec.swap e; ⟨none, s.1, b, s.2.2⟩)
-  | "get" | "getc" | "sb" | "fwd" | "tie" =>
+  | "get" | "getc" | "sb" | "fwd" | "tie" | "gett" =>
     some ((do let r ← getAll a; pure ⟨some r, a, b, 0⟩), ⟨some a, a, b, 0⟩)
   | _ => none
 
@@ -143,6 +165,29 @@ def objOf (o : String) (c : Cat) : Option ObjK :=
   | "ptr" | "dptr" => some (.ptr c)
   | _ => none
 
+/-- the history of wrapper objects behind a `rw` / `fref` line and the wrapper that is called:
+    call: `W w0{target}`; copy: `W w1{w0}`; rebind (reference_wrapper): `w0 = ref(other)` i.e. a temporary bound to the other
+    object is assigned; rebind (function_ref): `w0` first refers to the other object, then `w0 = w1`;
+    reref: `ref(w0)` / `cref(w0)` = `ref(w0.get())`, a wrapper with the same pointer -/
+def refHistory (act : String) (tid : Nat) : Option (List RefOp × Nat) :=
+  match act with
+  | "call" => some ([.bind 0 tid], 0)
+  | "copy" => some ([.bind 0 tid, .copy 1 0], 1)
+  | "reref" => some ([.bind 0 tid, .copy 1 0], 1)
+  | "rebind" => some ([.bind 0 9, .bind 1 tid, .assign 0 1], 0)      -- function_ref: w0 referred to 9, `w0 = w1`
+  | "rebind9" => some ([.bind 0 tid, .bind 1 9, .assign 0 1], 0)     -- reference_wrapper: `w0 = ref(other)`
+  | _ => none
+
+def stripB (p : Bool × Log) : Bool × Log := (p.1, p.2.map fun c => { c with args := c.args.map fun a => (Via.val, a.2) })
+
+def boundObjOf (o : String) : Option BoundObj :=
+  match o with
+  | "obj" => some .obj
+  | "ptr" => some (.ptr .l)
+  | "cptr" => some (.ptr .c)
+  | "refw" => some (.refw .l)
+  | _ => none
+
 structure DState where
   m : Except Err St
   s : Spec.ASt
@@ -166,13 +211,13 @@ def typeFact : String → Option (Bool × Bool)
   | "tuple_cat_value_types" => some (true, true)
   | "tuple_cat_keeps_ref" => some (false, true)
   | "tuple_cat_keeps_nested" => some (false, true)
-  | "tuple_copy_assignable" => some (false, true)
-  | "tuple_move_assignable" => some (false, true)
-  | "tuple_get_by_type" => some (false, true)
-  | "tuple_structured_binding" => some (false, true)
+  | "tuple_copy_assignable" => some (true, true)
+  | "tuple_move_assignable" => some (true, true)
+  | "tuple_get_by_type" => some (true, true)
+  | "tuple_structured_binding" => some (true, true)
   | "pair_ref_copy_assignable" => some (true, true)
-  | "pair_get_by_type" => some (false, true)
-  | "tuple_converting_ctor" => some (false, true)
+  | "pair_get_by_type" => some (true, true)
+  | "tuple_converting_ctor" => some (true, true)
   | _ => none
 
 def fmtM (st : St) : String :=
@@ -205,9 +250,12 @@ def parseIfn (l : Line) : Option Op :=
   | some "massign", some i => j.map fun j => .assignMove i j (conv i j)
   | some "assign_fn", some i => fn?.map (.assignFn i)
   | some "assign_null", some i => some (.assignNull i)
-  | some "swap", some i | some "fswap", some i => j.map (.swap i)
+  | some "swap", some i => j.map (.swap i)
+  | some "fswap", some i => j.map (.fswap i)
   | some "call", some i => (l.int? "x").map (.call i)
-  | some "bool", some i | some "eqnull", some i => some (.bool i)
+  | some "bool", some i => some (.bool i)
+  | some "eqnull", some i => some (.eqNull i)
+  | some "nenull", some i => some (.neNull i)
   | _, _ => none
 
 def step (st : DState) (l : Line) : DState × String :=
@@ -215,6 +263,21 @@ def step (st : DState) (l : Line) : DState × String :=
   let out (m s : String) := (st, m ++ "\t" ++ s)
   match l.op with
   | "pair" | "tuple" =>
+    if l.op == "tuple" && l.str? "op" == some "apply" && (l.str? "f").isSome then
+      -- apply(pointer to member, tuple whose first element is the object)
+      match l.str? "f", (l.nat? "q").bind catOf with
+      | some "memfn", some q =>
+        match l.list? "a" with
+        | some rest =>
+          out (fmtE (fun p => fmtRL (strip p)) (applyMember (fun o => .memfn 5 o) q rest))
+              (fmtRL (strip (Spec.applyMember (fun o => .memfn 5 o) q rest)))
+        | none => bad
+      | some "memdata", some q =>
+        match l.int? "v" with
+        | some v => out (fmtE fmtRL (applyMember (fun o => .memdata o v) q [])) (fmtRL (Spec.applyMember (fun o => .memdata o v) q []))
+        | none => bad
+      | _, _ => bad
+    else
     match l.str? "op", l.list? "a", l.list? "b" with
     | some "cmp", some [x, y], some [u, v] =>
       if l.op != "pair" then bad else
@@ -239,18 +302,20 @@ def step (st : DState) (l : Line) : DState × String :=
       | some ks =>
         if ks.length != a.length || a.length != b.length then bad
         else if (l.op == "pair" && a.length != 2) then bad
-        else if !applicable op ks then out "n/a" "n/a"
+        else if !applicable (l.op == "pair") op ks then out "n/a" "n/a"
         else match valueOp op ks a b with
           | some (m, s) => out (fmtE Res.fmt m) s.fmt
           | none => bad
       | none => bad
     | _, _, _ => bad
   | "tcat" =>
-    match (l.nat? "t").bind ekOf, (l.nat? "q").bind catOf, l.natList? "ts", l.list? "v" with
-    | some k, some q, some ts, some v =>
-      if ts.isEmpty || ts.sum != v.length then bad else
+    match kinds? l "k", (l.nat? "q").bind catOf, l.natList? "ts", l.list? "v" with
+    | some ks, some q, some ts, some v =>
+      if ts.isEmpty || ts.sum != v.length || ks.length != v.length then bad
+      -- lvalue / const tuples are copied from: a move-only element does not compile
+      else if q != .r && !ks.all (·.copyable) then out "n/a" "n/a" else
       let parts := splitBy ts v
-      let els : List El := v.map fun x => (k, x)
+      let els : List El := ks.zip v
       let rval := q == .r
       let after := if rval then (moveAll els).2.1 else v
       let cp := if rval then (moveAll els).2.2 else (copyAll els).2
@@ -298,7 +363,15 @@ def step (st : DState) (l : Line) : DState × String :=
         -- the by-value parameter is copy-constructed from an lvalue or a const rvalue, move-constructed from an rvalue
         let cp := if qa == .r then 0 else 1
         let tid := if l.op == "ifn2" then 8 else 4
-        out (fmtE fmtRL (functionRefCall (.fob tid c) args) ++ s!" cp={cp}") (fmtRL (Spec.functionRefCall (.fob tid c) args) ++ s!" cp={cp}")
+        -- the wrapper that is called: the original, a copy of it, or one that referred to another object (9) and was assigned to
+        -- (`ne=1`, function_ref<R(Args...) noexcept>, is the same class template: no separate model)
+        match refHistory ((l.str? "act").getD "call") tid with
+        | some (ops, w) =>
+          out (fmtE fmtRL (refCallAfter ops w fun t => functionRefCall (.fob t c) args) ++ s!" cp={cp}")
+              (fmtRL (match Spec.designates ops w with
+                      | some t => Spec.functionRefCall (.fob t c) args
+                      | none => (0, [])) ++ s!" cp={cp}")
+        | none => bad
       | "fn", some _, _, _ => out (fmtE (fun p => fmtRL (strip p)) (functionRefCall (.fn 1) (valArgs x)) ++ " cp=0") (fmtRL (strip (Spec.functionRefCall (.fn 1) (valArgs x))) ++ " cp=0")
       | "fptr", some _, _, _ => out (fmtE (fun p => fmtRL (strip p)) (functionRefCall (.fn 2) (valArgs x)) ++ " cp=0") (fmtRL (strip (Spec.functionRefCall (.fn 2) (valArgs x))) ++ " cp=0")
       | "lam", some _, _, _ => out (fmtE (fun p => fmtRL (strip p)) (functionRefCall (.fn 3) (valArgs x)) ++ " cp=0") (fmtRL (strip (Spec.functionRefCall (.fn 3) (valArgs x))) ++ " cp=0")
@@ -307,11 +380,13 @@ def step (st : DState) (l : Line) : DState × String :=
   | "rw" =>
     match l.nat? "cst", l.str? "act", l.list? "x", cats? l "xc" with
     | some cst, some act, some x, some xc =>
-      match fwdArgs x xc with
-      | some args =>
-        let tid := if act == "rebind" then 9 else 4
-        out (fmtE fmtRL (refWrapCall tid (cst == 1) args)) (fmtRL (Spec.refWrapCall tid (cst == 1) args))
-      | none => bad
+      match fwdArgs x xc, refHistory (if act == "rebind" then "rebind9" else act) 4 with
+      | some args, some (ops, w) =>
+        out (fmtE fmtRL (refCallAfter ops w fun t => refWrapCall t (cst == 1) args))
+            (fmtRL (match Spec.designates ops w with
+                    | some t => Spec.refWrapCall t (cst == 1) args
+                    | none => (0, [])))
+      | _, _ => bad
     | _, _, _, _ => bad
   | "bf" =>
     match l.str? "f", (l.nat? "q").bind catOf, l.nat? "bl", l.list? "b", l.list? "x" with
@@ -331,13 +406,47 @@ def step (st : DState) (l : Line) : DState × String :=
           out (fmtE fmtRL (bindFrontCall (fun q => .fob 6 q) q bound args) ++ s!" bcp={bcp}")
               (fmtRL (Spec.bindFrontCall (fun q => .fob 6 q) q bound args) ++ s!" bcp={bcp}")
         | none => bad
+      | "memfn" | "memdata" =>
+        -- bind_front(pointer to member, object | pointer | reference_wrapper)
+        match (l.str? "o").bind boundObjOf with
+        | some o =>
+          if f == "memfn" then
+            out (fmtE (fun p => fmtRL (strip p)) (bindFrontMember (fun k => .memfn 5 k) q o (valArgs x)) ++ " bcp=0")
+                (fmtRL (strip (Spec.bindFrontMember (fun k => .memfn 5 k) q o (valArgs x))) ++ " bcp=0")
+          else match l.int? "v" with
+            | some v => out (fmtE fmtRL (bindFrontMember (fun k => .memdata k v) q o (valArgs x)) ++ " bcp=0")
+                            (fmtRL (Spec.bindFrontMember (fun k => .memdata k v) q o (valArgs x)) ++ " bcp=0")
+            | none => bad
+        | none => bad
       | "fn" =>
         -- a function pointer taking ints by value: the categories of the bound arguments are not observable
         out (fmtE (fun p => fmtRL (strip p)) (bindFrontCall (fun _ => .fn 2) q bound (valArgs x)) ++ s!" bcp={bcp}")
             (fmtRL (strip (Spec.bindFrontCall (fun _ => .fn 2) q bound (valArgs x))) ++ s!" bcp={bcp}")
       | _ => bad
     | _, _, _, _, _ => bad
-  | "nf" =>
+  | "nfc" | "nf" =>
+    let fB (r : Bool × Log) : String := s!"r={fmtBool r.1} log={fmtLog r.2}"
+    if l.op == "nfc" || (l.str? "f").isSome then
+      -- not_fn around a pointer to member (the object is the first call argument, category c), and the stateless not_fn<ConstFn>()
+      let c := (l.nat? "c").bind catOf
+      match l.str? "f", c with
+      | some "fn", _ =>
+        if l.op != "nfc" then bad else
+        match l.nat? "p", l.list? "x" with
+        | some p, some x => out (fmtE fB (notFnOf (.fn 12) (p == 1) (valArgs x))) (fB (Spec.notFnOf (.fn 12) (p == 1) (valArgs x)))
+        | _, _ => bad
+      | some "memfn", some c =>
+        match l.nat? "p", l.list? "x" with
+        | some p, some x =>
+          out (fmtE (fun r => fB (stripB r)) (notFnOf (.memfn 11 (.obj c)) (p == 1) (valArgs x)))
+              (fB (stripB (Spec.notFnOf (.memfn 11 (.obj c)) (p == 1) (valArgs x))))
+        | _, _ => bad
+      | some "memdata", some c =>
+        match l.int? "v" with
+        | some v => out (fmtE fB (notFnOf (.memdata (.obj c) v) (v != 0) [])) (fB (Spec.notFnOf (.memdata (.obj c) v) (v != 0) []))
+        | none => bad
+      | _, _ => bad
+    else
     match (l.nat? "q").bind catOf, l.nat? "p", l.list? "x", cats? l "xc" with
     | some q, some p, some x, some xc =>
       match fwdArgs x xc with
